@@ -269,6 +269,59 @@ def _prune_correlated(fn: FunctionInfo, rd: "ReachingDefs", defs: List[Def], at:
         defs = kept or defs
     if not facts:
         return defs
+    # path form of the same argument (covers parameters, which have no node of their own): a definition of y that contradicts the
+    # fact cannot lie on a path to *at* on which it is still y's live definition; x's definition d is live at *at* only if some
+    # path from d to *at* avoids those nodes and every other definition of x
+    g = rd.cfg
+    forbidden = {}
+    for yname, (fact, t) in facts.items():
+        for e in rd.reaching(t, yname):
+            if e.node is None or e.kind not in ("assign", "unpack") or e.value is None:
+                continue
+            val = e.value
+            if e.kind == "unpack":
+                if isinstance(val, (ast.Tuple, ast.List)) and e.index is not None and e.index < len(val.elts):
+                    val = val.elts[e.index]
+                else:
+                    continue
+            if fact == "notnone" and isinstance(val, ast.Constant) and val.value is None:
+                forbidden.setdefault(e.node, set()).add(yname)
+            if fact == "none" and (isinstance(val, (ast.List, ast.Dict, ast.Tuple, ast.Set, ast.JoinedStr)) or
+                                   (isinstance(val, ast.Constant) and val.value is not None)):
+                forbidden.setdefault(e.node, set()).add(yname)
+    if forbidden and at is not None:
+        xname = defs[0].name
+        def_names = {}
+        for n, ds in rd.defs_at.items():
+            def_names[n] = {dd.name for dd in ds}
+        kept = []
+        for d in defs:
+            start = d.node if d.node is not None else g.entry
+            # breadth-first over normal and exception edges with the set of y names whose live definition contradicts the fact;
+            # a node that redefines x is left only by its exception edge (the assignment did not happen)
+            st0 = (start, frozenset(forbidden.get(start, ())))
+            seen_, todo_, live = {st0}, [st0], (start is at and not st0[1])
+            while todo_ and not live:
+                n, bad = todo_.pop()
+                redefines = xname in def_names.get(n, ()) and n is not start
+                for s_, lbl in g.edges(n):
+                    if redefines and lbl != "exc":
+                        continue
+                    if s_ is at:
+                        if not bad:
+                            live = True
+                            break
+                        continue
+                    nb = frozenset((bad - def_names.get(s_, set())) | forbidden.get(s_, set()))
+                    key = (s_, nb)
+                    if key in seen_:
+                        continue
+                    seen_.add(key)
+                    todo_.append(key)
+            if live:
+                kept.append(d)
+        if kept:
+            defs = kept
     keep = []
     for d in defs:
         drop = False
